@@ -20,7 +20,8 @@ def check(prog, rep):
     Z.check_positional_id_use(prog, rep, fs, entry)
     Z.check_crosstab_keys(prog, rep, m, 'crosstab')
     Z.check_crosstab_merge(prog, rep, m, 'crosstab')
-    Z.cursor_floor(prog, rep, pub, 2)
+    Z.check_strides(prog, rep, m, 'crosstab')      # the stride routine (its cursor is decided there, semantically)
+    Z.cursor_floor(prog, rep, pub, 1)
     rep.floor('Z2', 2)
     rep.floor('Z3', 3)
     rep.floor('Z4', 2)
